@@ -60,7 +60,8 @@ def variants(rng, text, toks, full):
             neg = raw.startswith(b"-")
             digits = raw[1:] if neg else raw
             # 6. superfluous leading zero(s)
-            for z in (b"0", b"00"):
+            # (one, two, or a whole run of them: the token then gets longer than any integer or double text needs to be, its value stays what it was)
+            for z in (b"0", b"00", b"0" * rng.choice([3, 17, 18, 19, 20, 31, 32, 33, 40, 64, 130, 300])):
                 yield "leading-zero" + ("-neg" if neg else "") + ("-frac" if (b"." in raw or b"e" in raw.lower()) else "") + ("-zero" if digits.split(b".")[0].split(b"e")[0].split(b"E")[0] == b"0" else ""), \
                     ctx, text[:t.start] + (b"-" if neg else b"") + z + digits + text[t.end:], True, None
             # 7. exponent without digits
